@@ -28,6 +28,17 @@ fn mkcaller(v) { var inner = Fiber.new(|| { Fiber.yield(1); return v; }); var ou
 fn mkopen(v) { var out = []; var f = Fiber.new(|| { var keep = v; out.push(|| keep); Fiber.yield(0); }); f.call(); return out[0]; }
 fn mkmethodholder(v) { #[constructor(new)] class H { fn get(self) { return v; } } return H; }
 fn mkstatic(v) { class S { #[static] fn get() { return v; } } return S; }
+fn pick(a, b) { return a; }
+fn churn_rtt() { try { return [7, 8, 9]; } finally { garbage(); } }
+fn churn_exc() { try { try { throw [4, 5]; } finally { garbage(); } } catch e { return e; } }
+fn churn_fiber() { var f = Fiber.new(|v| { garbage(); return Fiber.yield(v); }); var y = f.call([6]); garbage(); return f.call(y); }
+fn churn() { garbage(); churn_rtt(); churn_exc(); churn_fiber(); garbage(); }
+fn via_pending_return(mk) { try { return mk(); } finally { churn(); } }
+fn via_exception(mk) { try { try { throw mk(); } finally { churn(); } } catch e { churn(); return e; } }
+fn via_fiber_argument(mk) { var f = Fiber.new(|v| { churn(); return v; }); return f.call(mk()); }
+fn via_yield(mk) { var f = Fiber.new(|| { var r = Fiber.yield(mk()); churn(); return r; }); var y = f.call(); churn(); return f.call(y); }
+fn via_operands(mk) { return [mk(), churn(), 0][0]; }
+fn via_call_arguments(mk) { return pick(mk(), churn()); }
 fn garbage() { var a = [[1], [2], [3]]; var b = (1, (2, 3)); var c = {"a": [1], "b": "x" + "y"}; var d = K.new(); var e = [100..101, 100..102, 100..103, 100..104, 100..105, 100..106, 100..107, 100..108, 100..109, 100..110]; var f = || a; return nil; }
 "#;
 
@@ -42,6 +53,7 @@ struct Referent {
 fn referents() -> Vec<Referent> {
     let r = |name, make, touch, hashable, is_class| Referent { name, make, touch, hashable, is_class };
     vec![
+        r("string", "\"dyn\" + \"amic\"", "print(x); print(x.len()); print(x == \"dyn\" + \"amic\"); print({x: 1}.get(\"dy\" + \"namic\")); print(x + \"!\"); for c in x { print(c); }", true, false),
         r("tuple", "(1, \"ab\" + \"c\", (2, 3))", "print(x); print(x[1]); print(x == (1, \"abc\", (2, 3))); print({x: 1}.len()); for e in x { print(e); }", true, false),
         r("vec", "[1, [2, \"s\" + \"t\"]]", "print(x); x.push(3); print(x.len()); for e in x { print(e); } print(x == [1, [2, \"st\"], 3]);", false, false),
         r("map", "{\"k\": [1, 2], (1, 2): \"v\" + \"w\"}", "print(x.get(\"k\")); print(x.get((1, 2))); print(x.len()); print(x.keys().len());", false, false),
@@ -94,6 +106,17 @@ fn holders() -> Vec<Holder> {
         h("error_context", "Error.new(@)", "@.context", false, false),
         h("superclass_link", "mksubclass(@)", "type(@.new()).new()", false, true),
         h("open_variable_of_abandoned_fiber", "mkopen(@)", "@()", false, false),
+        // transient interpreter state: the referent is held only by the interpreter's own bookkeeping
+        // (a return waiting for a finally block, an exception in flight, values in transfer between
+        // fibers, operands of an unfinished expression) while garbage is allocated and the same mechanisms are exercised
+        // again by the allocating code (a second return waiting for its finally block in a callee, a second
+        // exception in flight, another fiber transfer)
+        h("pending_return_during_finally", "via_pending_return(|| (@))", "@", false, false),
+        h("exception_in_flight_during_finally", "via_exception(|| (@))", "@", false, false),
+        h("fiber_call_argument", "via_fiber_argument(|| (@))", "@", false, false),
+        h("yielded_and_resumed_value", "via_yield(|| (@))", "@", false, false),
+        h("operand_of_unfinished_literal", "via_operands(|| (@))", "@", false, false),
+        h("argument_of_unfinished_call", "via_call_arguments(|| (@))", "@", false, false),
     ]
 }
 
@@ -131,7 +154,9 @@ fn shapes(max_chain: usize) -> Vec<Shape> {
             // outer holders hold a holder (not hashable, not a class)
             let mut ok = true;
             for (pos, hi) in chain.iter().enumerate() {
-                let innermost = pos + 1 == chain.len();
+                // pass-through holders hand the referent itself on: what this holder holds is the
+                // referent if everything inside it is pass-through
+                let innermost = chain[pos + 1..].iter().all(|k| hs[*k].wrap.starts_with("via_"));
                 let h = &hs[*hi];
                 if h.needs_hashable && !(innermost && r.hashable) {
                     ok = false;
@@ -182,7 +207,11 @@ fn shapes(max_chain: usize) -> Vec<Shape> {
 }
 
 fn run_with(runner: &mut Runner, src: &str, gc: GcSpec) -> (Obs, Option<SnippetResult>, Vec<String>, usize) {
-    let mut req = Request { op: "run".into(), snippets: vec![src.to_string()], gc: Some(gc), fuel: Some(3_000_000), want: vec!["uaf".into(), "heap".into()], ..Default::default() };
+    run_with_modules(runner, src, &BTreeMap::new(), gc)
+}
+
+fn run_with_modules(runner: &mut Runner, src: &str, modules: &BTreeMap<String, String>, gc: GcSpec) -> (Obs, Option<SnippetResult>, Vec<String>, usize) {
+    let mut req = Request { op: "run".into(), snippets: vec![src.to_string()], modules: modules.clone(), gc: Some(gc), fuel: Some(3_000_000), want: vec!["uaf".into(), "heap".into()], ..Default::default() };
     let obs = runner.call(&mut req);
     let (res, uaf, allocs) = match obs.resp() {
         Some(r) => (r.results.get(0).cloned(), r.uaf.clone(), r.allocs),
@@ -313,19 +342,25 @@ pub fn run(ctx: &Ctx) -> Report {
         acc
     });
     // ---- the other profiles' corpora: any program that holds temporaries across an allocation --------
-    let mut corpus: Vec<String> = Vec::new();
+    let mut corpus: Vec<(String, BTreeMap<String, String>)> = Vec::new();
     for c in c05::cases_for_c04(false).into_iter().chain(c06::cases_for_c04(false)).chain(c07::cases_for_c04(false)).chain(c08::cases_for_c04(false)).chain(c18::cases_for_c04(thorough)) {
-        corpus.push(print_program(&c.prog, false));
+        corpus.push((print_program(&c.prog, false), BTreeMap::new()));
     }
-    // quick: every 4th program of the (large) statement-tree and exception-nest corpora, all of the others
-    let corpus: Vec<String> = if thorough { corpus } else { corpus.into_iter().enumerate().filter(|(i, _)| i % 3 == 0).map(|(_, s)| s).collect() };
+    // quick: every 3rd program of the (large) statement-tree and exception-nest corpora
+    let mut corpus: Vec<(String, BTreeMap<String, String>)> = if thorough { corpus } else { corpus.into_iter().enumerate().filter(|(i, _)| i % 3 == 0).map(|(_, s)| s).collect() };
+    // programs with modules (compilation and module bodies run in the middle of the importing program) and
+    // error paths through every kind of call link
+    for c in crate::c14::cases_for_c01(thorough).into_iter().chain(crate::c17::cases_for_c01(thorough)) {
+        let modules = crate::mcheck::module_sources(&c);
+        corpus.push((print_program(&c.prog, false), modules));
+    }
     let n_corpus = corpus.len();
-    let corpus_accs = par_map(&ctx.runner_checked, ctx.workers, corpus.into_iter(), |runner, _i, src| {
+    let corpus_accs = par_map(&ctx.runner_checked, ctx.workers, corpus.into_iter(), |runner, _i, (src, modules)| {
         runner.timeout = std::time::Duration::from_secs(60);
         let mut acc = Acc::default();
         acc.programs += 1;
-        let (_, never, _, allocs) = run_with(runner, &src, gc("never", vec![], false));
-        let (_, always, uaf, _) = run_with(runner, &src, gc("default", vec![], true));
+        let (_, never, _, allocs) = run_with_modules(runner, &src, &modules, gc("never", vec![], false));
+        let (_, always, uaf, _) = run_with_modules(runner, &src, &modules, gc("default", vec![], true));
         acc.runs += 2;
         acc.schedules += 2;
         acc.alloc_points += allocs;
@@ -338,7 +373,7 @@ pub fn run(ctx: &Ctx) -> Report {
         if !uaf.is_empty() || !same(&never, &always) {
             acc.violations.push((
                 format!("[corpus program] under collect-at-every-allocation: use-after-free events {:?}; output {:?} vs never-collect output {:?}", uaf.iter().take(3).collect::<Vec<_>>(), always.as_ref().map(|r| (&r.out, &r.outcome)), never.as_ref().map(|r| (&r.out, &r.outcome))),
-                json!({"family": "corpus", "request": {"op": "run", "snippets": [src], "gc": {"mode": "default", "quarantine": true}, "want": ["uaf"]}, "uaf": uaf, "observed": always, "never_collect_run": never}),
+                json!({"family": "corpus", "request": {"op": "run", "snippets": [src], "modules": modules, "gc": {"mode": "default", "quarantine": true}, "want": ["uaf"]}, "uaf": uaf, "observed": always, "never_collect_run": never}),
             ));
         }
         acc
@@ -376,7 +411,7 @@ pub fn run(ctx: &Ctx) -> Report {
     report.cov("traces_validated_against_impl", json!(acc.runs));
     report.cov("distinct_nontrivial", json!(n_shapes + n_corpus));
     report.cov("exhaustive", json!(true));
-    report.cov("rule", json!("programs: every heap-shape program root -> holder chain (length <= 2 over 17 holder kinds: vec/tuple element, map key, map value, field, captured variable, bound-method receiver, iterators, map adapter, suspended fiber local, method and static-method captures, error context, superclass link, open variable of an abandoned fiber) -> referent (19 kinds), the root being a global, a local or a closed variable; after construction every other reference is dropped, garbage of six kinds is allocated, the referent is reached through the chain and touched in every way its kind allows; plus the C05/C06/C07/C08/C18 generator corpora. schedules: never (comparison), always (collect at every allocation, swept objects quarantined and every later touch reported), only{i} for every allocation index of the small programs (all pairs in the thorough tier). oracle: no use-after-free event, no object swept while borrowed, output identical to the never-collect run."));
+    report.cov("rule", json!("programs: every heap-shape program root -> holder chain (length <= 2 over 23 holder kinds: vec/tuple element, map key, map value, field, captured variable, bound-method receiver, iterators, map adapter, suspended fiber local, method and static-method captures, error context, superclass link, open variable of an abandoned fiber, and six kinds of transient interpreter state - a return waiting for a finally block, an exception in flight through a finally block, a fiber call argument, a yielded and resumed value, an operand of an unfinished literal, an argument of an unfinished call) -> referent (20 kinds), the root being a global, a local or a closed variable; after construction every other reference is dropped, garbage of six kinds is allocated, the referent is reached through the chain and touched in every way its kind allows; plus the C05/C06/C07/C08/C18 generator corpora and the C14 (modules) and C17 (error paths through every call link) corpora with their module tables. schedules: never (comparison), always (collect at every allocation, swept objects quarantined and every later touch reported), only{i} for every allocation index of the small programs (all pairs in the thorough tier). oracle: no use-after-free event, no object swept while borrowed, output identical to the never-collect run."));
     report.cov("bounds", json!({"chain_length": 2, "only_i_for_program_allocations_up_to": 80, "pairs_for_program_allocations_up_to": if thorough { 40 } else { 0 }}));
     report.cov("heap_shape_programs", json!(n_shapes));
     report.cov("corpus_programs", json!(n_corpus));
